@@ -82,8 +82,10 @@ void random_value (Stokes<T>& val, U scale, float max_polarization = 1.0)
 
   unsigned i=0;
   
+  // random direction, drawn at unit scale so that its length neither
+  // underflows nor overflows
   for (i=1; i<4; i++)
-    random_value (val[i], scale);
+    random_value (val[i], 1.0);
 
   T modp = val.abs_vect();
 
